@@ -5,7 +5,7 @@ set -u
 P=$(realpath "$1"); shift
 T=$(mktemp -d /dev/shm/sa_mut.XXXXXX)
 trap 'rm -rf "$T"' EXIT
-cp -r /repo/norminette "$T/norminette"
+git -C /repo archive HEAD norminette | tar -x -C "$T"
 find "$T" -name __pycache__ -prune -exec rm -rf {} +
 if ! (cd "$T" && patch -s -p1 < "$P"); then echo "PATCH-FAILED $P"; exit 3; fi
 cd /verif
